@@ -40,7 +40,8 @@ def cases(tier, seed):
     for c in designs.seq_cases(widths=(3,)) + designs.misc_cases() + designs.dup_cases()[:10]:
         out.append(dict(c, k='timing'))
         out.append(dict(c, k='paths'))
-    for name in ('reconv', 'self_and', 'mem_wr_rd', 'two_mems', 'reg_loop', 'diamond3'):
+    for name in ('reconv', 'self_and', 'mem_wr_rd', 'two_mems', 'reg_loop', 'diamond3',
+                 'mem_rd_to_wraddr', 'mem_rd_to_wrdata', 'mem_two_rd_feedback'):
         out.append({'fam': 'GRAPH', 'kind': name, 'k': 'timing'})
         out.append({'fam': 'GRAPH', 'kind': name, 'k': 'paths'})
     for tech in (130, 65, 45, 250):
@@ -77,6 +78,28 @@ def build_graph(d):
         o1, o2 = pyrtl.Output(3, 'o1'), pyrtl.Output(5, 'o2')
         o1 <<= m1[a]
         o2 <<= m2[a] | m2[(a + 1)[0:2]]
+    elif k == 'mem_rd_to_wraddr':   # a read port's data is the write address of the same memory
+        m = pyrtl.MemBlock(bitwidth=2, addrwidth=2, name='m', asynchronous=True)
+        a, d_ = pyrtl.Input(2, 'a'), pyrtl.Input(2, 'd')
+        rd = m[a]
+        m[rd] <<= d_
+        o = pyrtl.Output(2, 'o')
+        o <<= rd
+    elif k == 'mem_rd_to_wrdata':   # read-modify-write: read data feeds write data and enable
+        m = pyrtl.MemBlock(bitwidth=3, addrwidth=2, name='m', asynchronous=True)
+        a, we = pyrtl.Input(2, 'a'), pyrtl.Input(1, 'we')
+        rd = m[a]
+        m[a] <<= pyrtl.MemBlock.EnabledWrite((rd + 1)[0:3], we & rd[0])
+        o = pyrtl.Output(3, 'o')
+        o <<= rd ^ 5
+    elif k == 'mem_two_rd_feedback':  # two read ports, one feeding the write port, both observed
+        m = pyrtl.MemBlock(bitwidth=2, addrwidth=2, name='m', asynchronous=True)
+        a, b = pyrtl.Input(2, 'a'), pyrtl.Input(2, 'b')
+        r1, r2 = m[a], m[b]
+        m[r1] <<= r2
+        o1, o2 = pyrtl.Output(2, 'o1'), pyrtl.Output(2, 'o2')
+        o1 <<= r1
+        o2 <<= r2 | r1
     elif k == 'reg_loop':
         r = pyrtl.Register(3, 'r')
         a = pyrtl.Input(3, 'a')
@@ -323,6 +346,9 @@ def smt_paths(block, src, dst, returned):
     rpaths = [[idx[id(n)] for n in p] for p in returned]
     extra = []
     for rp in rpaths:
+        if len(rp) > L:           # more nets than the block has: some net repeats
+            extra.append(rp)
+            continue
         t = z3.Solver()
         t.add(s.assertions())
         t.add(ln == len(rp))
@@ -331,7 +357,8 @@ def smt_paths(block, src, dst, returned):
         if t.check() != z3.sat:
             extra.append(rp)
     for rp in rpaths:
-        s.add(z3.Not(z3.And(ln == len(rp), *[pos[i] == k for i, k in enumerate(rp)])))
+        if len(rp) <= L:
+            s.add(z3.Not(z3.And(ln == len(rp), *[pos[i] == k for i, k in enumerate(rp)])))
     missing = None
     if s.check() == z3.sat:
         m = s.model()
